@@ -2,6 +2,8 @@ package main
 
 import (
 	"fmt"
+	"net/textproto"
+	"go/constant"
 	"go/ast"
 	"go/token"
 	"go/types"
@@ -35,6 +37,8 @@ type Engine struct {
 	hookErr []string
 	files   map[string]string // contract file -> package path
 	sentinels map[*ssa.Global]int
+	litMaps   map[*ssa.Global][][2]string
+	litSlices map[*ssa.Global][]string
 	lemmas    []*Contract
 	axiomNames []string
 	fnVals     map[*ssa.Function]*ClosV
@@ -152,6 +156,131 @@ func (e *Engine) scanGlobals() {
 					}
 				}
 			}
+		}
+	}
+	e.litMaps = map[*ssa.Global][][2]string{}
+	e.litSlices = map[*ssa.Global][]string{}
+	// package-level map / []string literals with constant contents, assigned once in init and never
+	// written through elsewhere (obligation globals/immutable, checked syntactically here)
+	mutated := map[*ssa.Global]bool{}
+	for fn := range ssautil.AllFunctions(e.prog) {
+		if !strings.HasPrefix(fnPkgPath(fn), modPrefix) {
+			continue
+		}
+		isInit := fn.Name() == "init" && fn.Synthetic != ""
+		for _, b := range fn.Blocks {
+			for _, in := range b.Instrs {
+				var target ssa.Value
+				switch x := in.(type) {
+				case *ssa.MapUpdate:
+					target = x.Map
+				case *ssa.Store:
+					if ia, ok := x.Addr.(*ssa.IndexAddr); ok {
+						target = ia.X
+					}
+				case *ssa.Call:
+					if bi, ok := x.Call.Value.(*ssa.Builtin); ok && bi.Name() == "delete" {
+						target = x.Call.Args[0]
+					}
+				}
+				if target == nil || isInit {
+					continue
+				}
+				if u, ok := target.(*ssa.UnOp); ok {
+					if g, ok := u.X.(*ssa.Global); ok {
+						mutated[g] = true
+					}
+				}
+			}
+		}
+		if !isInit {
+			continue
+		}
+		for _, b := range fn.Blocks {
+			for _, in := range b.Instrs {
+				st, ok := in.(*ssa.Store)
+				if !ok {
+					continue
+				}
+				g, ok := st.Addr.(*ssa.Global)
+				if !ok {
+					continue
+				}
+				switch v := st.Val.(type) {
+				case *ssa.MakeMap:
+					var kvs [][2]string
+					okAll := true
+					for _, r := range *v.Referrers() {
+						switch mu := r.(type) {
+						case *ssa.MapUpdate:
+							kc, ok1 := mu.Key.(*ssa.Const)
+							vc, ok2 := mu.Value.(*ssa.Const)
+							if !ok1 || !ok2 || kc.Value == nil || vc.Value == nil || kc.Value.Kind() != constant.String || vc.Value.Kind() != constant.String {
+								okAll = false
+								continue
+							}
+							kvs = append(kvs, [2]string{constant.StringVal(kc.Value), constant.StringVal(vc.Value)})
+						case *ssa.Store, *ssa.DebugRef:
+						default:
+							okAll = false
+						}
+					}
+					if okAll {
+						e.litMaps[g] = kvs
+					}
+				case *ssa.Slice:
+					al, ok := v.X.(*ssa.Alloc)
+					if !ok || v.Low != nil || v.High != nil {
+						continue
+					}
+					at, ok := al.Type().Underlying().(*types.Pointer).Elem().Underlying().(*types.Array)
+					if !ok {
+						continue
+					}
+					if b, ok := at.Elem().Underlying().(*types.Basic); !ok || b.Kind() != types.String {
+						continue
+					}
+					lits := make([]string, at.Len())
+					okAll := true
+					n := 0
+					for _, r := range *al.Referrers() {
+						ia, ok := r.(*ssa.IndexAddr)
+						if !ok {
+							continue
+						}
+						ic, ok := ia.Index.(*ssa.Const)
+						if !ok {
+							okAll = false
+							continue
+						}
+						idx, _ := constant.Int64Val(ic.Value)
+						for _, r2 := range *ia.Referrers() {
+							if s2, ok := r2.(*ssa.Store); ok {
+								c, ok := s2.Val.(*ssa.Const)
+								if !ok || c.Value == nil || c.Value.Kind() != constant.String {
+									okAll = false
+									continue
+								}
+								lits[idx] = constant.StringVal(c.Value)
+								n++
+							}
+						}
+					}
+					if okAll && int64(n) == at.Len() {
+						e.litSlices[g] = lits
+					}
+				}
+			}
+		}
+	}
+	for g := range e.litMaps {
+		if stores[g] != 1 || mutated[g] {
+			delete(e.litMaps, g)
+		}
+	}
+	for g := range e.litSlices {
+		if stores[g] != 1 || mutated[g] {
+			delete(e.litSlices, g)
 		}
 	}
 	var gs []*ssa.Global
@@ -563,4 +692,47 @@ func (e *Engine) fnVal(fn *ssa.Function) *ClosV {
 	c := &ClosV{Fn: fn}
 	e.fnVals[fn] = c
 	return c
+}
+
+// literalGlobal: the value of an immutable package-level map[string]string / []string literal together
+// with the facts describing its contents in the given state.
+func (e *Engine) literalGlobal(st *State, g *ssa.Global) (Val, bool) {
+	name := "gl" + mangle(g.Pkg.Pkg.Path()+"."+g.Name())[1:]
+	if kvs, ok := e.litMaps[g]; ok {
+		reg.declare(name, fmt.Sprintf("(declare-const %s Int)", name))
+		r := Term{name, SInt}
+		st.assume(Cmp(">", r, IntLit(0)))
+		st.assume(Term{fmt.Sprintf("(select %s %s)", st.alloc0.Name, r.S), SBool})
+		strT := types.Typ[types.String]
+		fam := mapFam(strT, strT)
+		dom := st.heap("MD|"+fam, []Sort{SInt, SStr}, SBool)
+		val := st.heap("MV|"+fam+"|", []Sort{SInt, SStr}, SStr)
+		var in []string
+		for _, kv := range kvs {
+			// the canonical header form of a literal key is computed by the real function
+			st.assume(Eq(reg.uf("sf_canonhdr", SStr, StrLit(kv[0])), StrLit(textproto.CanonicalMIMEHeaderKey(kv[0]))))
+			in = append(in, fmt.Sprintf("(= k %s)", StrLit(kv[0]).S))
+			st.asserts = append(st.asserts, fmt.Sprintf("(= (select (select %s %s) %s) %s)", val.Name, r.S, StrLit(kv[0]).S, StrLit(kv[1]).S))
+		}
+		body := "false"
+		if len(in) == 1 {
+			body = in[0]
+		} else if len(in) > 1 {
+			body = "(or " + strings.Join(in, " ") + ")"
+		}
+		st.asserts = append(st.asserts, fmt.Sprintf("(forall ((k String)) (! (= (select (select %s %s) k) %s) :pattern ((select (select %s %s) k))))", dom.Name, r.S, body, dom.Name, r.S))
+		return Sc{r}, true
+	}
+	if lits, ok := e.litSlices[g]; ok {
+		reg.declare(name, fmt.Sprintf("(declare-const %s Int)", name))
+		r := Term{name, SInt}
+		st.assume(Cmp(">", r, IntLit(0)))
+		st.assume(Term{fmt.Sprintf("(select %s %s)", st.alloc0.Name, r.S), SBool})
+		el := st.heap("E|string|", []Sort{SInt, SInt}, SStr)
+		for i, l := range lits {
+			st.asserts = append(st.asserts, fmt.Sprintf("(= (select (select %s %s) %d) %s)", el.Name, r.S, i, StrLit(l).S))
+		}
+		return SliceV{r, IntLit(0), IntLit(int64(len(lits))), types.Typ[types.String]}, true
+	}
+	return nil, false
 }
